@@ -27,7 +27,8 @@ MANIFEST = dict(
          'computed by an independent encoder (little-endian id and integers, length-prefixed 4-byte-padded strings over all boundary lengths, vectors, boxed/bare nesting), that parsing returns the same '
          'value (symbolic leaves come back as the very same symbols) and consumes exactly all bytes; that the registrator reads every declaration as an independent parser does; and that block-id helpers '
          'tile 80 bytes losslessly and are hashable.'
-         ' A second nat field next to the flag word gets the complementary bit pattern; the flag-only type `true` is covered; equal block ids built through different routes (bytes / hex, shard None / -2^63, from_bytes, from_dict) are one dictionary key.',
+         ' A second nat field next to the flag word gets the complementary bit pattern; the flag-only type `true` is covered; equal block ids built through different routes (bytes / hex, shard None / -2^63, from_bytes, from_dict) are one dictionary key.'
+         ' One TlSchemas object serving many parses returns for given bytes what a fresh object returns, also after refused parses (D5). The short BlockId is usable as a dictionary key.',
     note='trusted: interpreter, rope model, the checker-side TL encoder (transcription of the TL binary rules). Assumption: byte-string payloads do not begin with a registered constructor id (the library\'s auto-deserialise '
          'feature would otherwise re-parse them by design). Not decided: recursion deeper than the generator bound, tonlib_api JSON-only types.',
     design_ref='DESIGN.md section 4 C14')
